@@ -265,3 +265,15 @@ Definition run_history (inp : list Z) : list Z :=
               end
   | [] => bad_input
   end.
+
+(* ---- components of C19: SYX files ---- *)
+Require Import Mido.Model.Syx.
+Definition run_syx_write (inp : list Z) : list Z :=
+  match inp with
+  | p :: r => match in_msgs r with
+              | Some (ms, []) => out_list (write_syx (negb (p =? 0)) ms)
+              | _ => bad_input
+              end
+  | [] => bad_input
+  end.
+Definition run_syx_read (inp : list Z) : list Z := out_res out_msgs (read_syx inp).
